@@ -110,6 +110,16 @@ func (d *vDiskC06) install() {
 		delete(d.files, a)
 		return nil
 	})
+	verifrt.Stub("os.Remove", func(name string) error {
+		if err := d.effect(); err != nil {
+			return err
+		}
+		if d.files[name] == nil {
+			return &fs.PathError{Op: "remove", Path: name, Err: fs.ErrNotExist}
+		}
+		delete(d.files, name) // an unlink is durable at once in this model (like rename)
+		return nil
+	})
 	verifrt.Stub("os.ReadFile", func(name string) ([]byte, error) {
 		f := d.files[name]
 		if f == nil {
@@ -365,4 +375,52 @@ func VerifC06_DeleteIsPersisted() {
 		verifrt.Assert(readPersisted() == "a:;", "DELETE-CHANNEL:persisted-document-excludes-the-deleted-channel")
 	}
 	verifrt.Reach("deleted", true)
+}
+
+// Two pause / unpause requests for DIFFERENT topics at the same time, every interleaving within
+// the preemption bound, real PersistMetadata against the disk model: once both requests have been
+// answered 200, a restart on that data path finds BOTH acknowledged states (the handlers serialise
+// the snapshot-and-write, so an older snapshot can never overwrite a newer document).
+func VerifC06_ConcurrentPausesArePersisted() {
+	o := verifOpts()
+	s, n := verifHTTPServer(o)
+	fn := newMetadataFile(o)
+	verifrt.Preemptions(1)
+	var ta, tb *Topic
+	verifrt.Atomic(func() {
+		ta = NewTopic("a", n, func(*Topic) {})
+		n.topicMap["a"] = ta
+		tb = NewTopic("b", n, func(*Topic) {})
+		n.topicMap["b"] = tb
+		if verifrt.Symbolic() {
+			d := &vDiskC06{files: map[string]*vFileC06{}, handles: map[*os.File]string{}, crashAt: -1, faultAt: -1}
+			d.install()
+		}
+	})
+	bUnpause := verifrt.Choice("second-is-unpause", verifrt.Bound("pause-variants", 1, 2)) == 1
+	epB := "/topic/pause"
+	if bUnpause {
+		tb.paused = 1
+		epB = "/topic/unpause"
+	}
+	var errA, errB error
+	verifrt.Go("pause-a", func() {
+		_, errA = s.doPauseTopic(nil, verifReq("POST", "/topic/pause", "topic=a", nil, false, 0), nil)
+	})
+	verifrt.Go("pause-b", func() {
+		_, errB = s.doPauseTopic(nil, verifReq("POST", epB, "topic=b", nil, false, 0), nil)
+	})
+	verifrt.Join()
+	verifrt.Assert(errA == nil && errB == nil, "both-requests-answered-200")
+	n2 := verifShellNSQD(o)
+	var lerr error
+	verifrt.Atomic(func() { lerr = n2.LoadMetadata() })
+	verifrt.Assert(lerr == nil, "metadata-loadable-after-concurrent-pauses")
+	want := "a!,b!,"
+	if bUnpause {
+		want = "a!,b,"
+	}
+	verifrt.Assert(verifC06TopicSet(n2) == want, "every-acknowledged-pause-is-in-the-persisted-document")
+	verifrt.Reach("both-persisted", verifC06TopicSet(n2) == want)
+	_ = fn
 }
